@@ -1,3 +1,160 @@
 package main
 
-func raceMain(args []string) {}
+// race: the concurrent workload of C19.  Built with -race by the check; reads hex documents from stdin.
+//   phase 1: all documents parsed concurrently (16 at a time), each result compared with the sequential parse
+//   phase 2: for each of the first n documents, one parsed tree shared by goroutines that render it under all 30
+//            configurations (two goroutines per shared *HTMLRenderer value), format it twice and walk it twice;
+//            every output compared with the sequentially computed one
+// exit status 1 on a differing result; the race detector itself exits with status 66 (GORACE=halt_on_error=1).
+
+import (
+	"bufio"
+	"bytes"
+	"encoding/hex"
+	"fmt"
+	"os"
+	"strconv"
+	"strings"
+	"sync"
+
+	cm "zombiezen.com/go/commonmark"
+	"zombiezen.com/go/commonmark/format"
+)
+
+func raceMain(args []string) {
+	n := 40
+	if len(args) > 1 {
+		n, _ = strconv.Atoi(args[1])
+	}
+	var docs [][]byte
+	sc := bufio.NewScanner(os.Stdin)
+	sc.Buffer(make([]byte, 1<<20), 1<<26)
+	for sc.Scan() {
+		b, err := hex.DecodeString(strings.TrimSpace(sc.Text()))
+		if err == nil {
+			docs = append(docs, b)
+		}
+	}
+	parseDump := func(in []byte) string {
+		blocks, refs := cm.Parse(append([]byte(nil), in...))
+		return dumpAll(blocks, refs)
+	}
+	// phase 1
+	seq := make([]string, len(docs))
+	for i, d := range docs {
+		seq[i] = parseDump(d)
+	}
+	bad := 0
+	var mu sync.Mutex
+	sem := make(chan struct{}, 16)
+	var wg sync.WaitGroup
+	for i, d := range docs {
+		wg.Add(1)
+		sem <- struct{}{}
+		go func(i int, d []byte) {
+			defer wg.Done()
+			defer func() { <-sem }()
+			// streaming entry point on odd indices
+			var got string
+			if i%2 == 1 {
+				blocks := streamBlocks(d)
+				refs := make(cm.ReferenceMap)
+				for _, b := range blocks {
+					refs.Extract(b.Source, b.AsNode())
+				}
+				ip := &cm.InlineParser{ReferenceMatcher: refs}
+				for _, b := range blocks {
+					ip.Rewrite(b)
+				}
+				got = dumpAll(blocks, refs)
+			} else {
+				got = parseDump(d)
+			}
+			if got != seq[i] {
+				mu.Lock()
+				bad++
+				fmt.Printf("DIFF concurrent parse of document %d differs from sequential parse\n", i)
+				mu.Unlock()
+			}
+		}(i, d)
+	}
+	wg.Wait()
+	// phase 2
+	evals := len(docs)
+	if n > len(docs) {
+		n = len(docs)
+	}
+	for di := 0; di < n; di++ {
+		blocks, refs := cm.Parse(append([]byte(nil), docs[di]...))
+		want := make([]string, 30)
+		rs := make([]*cm.HTMLRenderer, 30)
+		for k := 0; k < 30; k++ {
+			rs[k] = cfgOf(k)
+			rs[k].ReferenceMap = refs
+			var buf bytes.Buffer
+			rs[k].Render(&buf, blocks)
+			want[k] = buf.String()
+		}
+		var fb bytes.Buffer
+		format.Format(&fb, blocks)
+		wantFmt := fb.String()
+		walkCount := func() int {
+			c := 0
+			for _, b := range blocks {
+				cm.Walk(b.AsNode(), &cm.WalkOptions{Pre: func(cur *cm.Cursor) bool {
+					c++
+					if i := cur.Node().Inline(); i != nil {
+						_ = i.LinkReference()
+						_ = i.Text(b.Source)
+					}
+					return true
+				}, Post: func(*cm.Cursor) bool { c++; return true }})
+			}
+			return c
+		}
+		wantWalk := walkCount()
+		var wg2 sync.WaitGroup
+		fail := func(what string) {
+			mu.Lock()
+			bad++
+			fmt.Printf("DIFF %s of shared tree of document %d differs from sequential result\n", what, di)
+			mu.Unlock()
+		}
+		for k := 0; k < 30; k++ {
+			for rep := 0; rep < 2; rep++ {
+				wg2.Add(1)
+				go func(k int) {
+					defer wg2.Done()
+					var buf bytes.Buffer
+					rs[k].Render(&buf, blocks)
+					if buf.String() != want[k] {
+						fail(fmt.Sprintf("rendering (cfg %d)", k))
+					}
+				}(k)
+			}
+		}
+		for rep := 0; rep < 2; rep++ {
+			wg2.Add(2)
+			go func() {
+				defer wg2.Done()
+				var b bytes.Buffer
+				format.Format(&b, blocks)
+				if b.String() != wantFmt {
+					fail("formatting")
+				}
+			}()
+			go func() {
+				defer wg2.Done()
+				if walkCount() != wantWalk {
+					fail("walking")
+				}
+			}()
+		}
+		wg2.Wait()
+		evals += 64
+	}
+	fmt.Printf("race workload: %d documents parsed concurrently, %d shared trees x 64 concurrent readers, %d differing results, evaluations %d\n", len(docs), n, bad, evals)
+	if bad > 0 {
+		os.Exit(1)
+	}
+}
